@@ -219,7 +219,7 @@ class Run:
                 except Infeasible:
                     pass
                 scripts.extend(self.path.alternatives)
-                if len(out) > 400:
+                if len(out) > 2000:
                     raise Unsupported('path explosion')
         finally:
             self.st, self.path = saved_st, saved_path
